@@ -1,6 +1,6 @@
 import DirectVerif.Model.ConfigGuard
 /-!
-Helper lemmas for `Props/C20Guards.lean`: what the verdicts of the guard evaluator mean.
+Helper lemmas for `Props/GuardsC20.lean`: what the verdicts of the guard evaluator mean.
 -/
 namespace DirectVerif.Config
 
@@ -59,5 +59,105 @@ theorem allBetween_spec (lo hi : Int) (xs : List (Int × Nat)) (o : Sym → PyV)
       | none => simp
       | some b => cases b <;> simp
     · simp [hx]
+
+/-! ## the merge stage, specified -/
+
+
+/-- the key loop accepts a file exactly when it accepts every key (no key is skipped, none is looked at twice) -/
+theorem checkTopKeys_ok_iff (t : Tables) (file : Val) (kvs : List (Sym × Val)) :
+    checkTopKeys t file kvs = .ok () ↔ ∀ kv ∈ kvs, checkTopKey t file kv.1 kv.2 = .ok () := by
+  induction kvs with
+  | nil => simp [checkTopKeys]
+  | cons kv rest ih =>
+    obtain ⟨k, v⟩ := kv
+    unfold checkTopKeys
+    cases h : checkTopKey t file k v with
+    | error e => simp [h]
+    | ok u => cases u; simp [h, ih]
+
+theorem checkModelBlocks_ok_iff (t : Tables) (bs : List (Sym × Val)) :
+    checkModelBlocks t bs = .ok () ↔ ∀ b ∈ bs, checkModelBlock t b.2 = .ok () := by
+  induction bs with
+  | nil => simp [checkModelBlocks]
+  | cons b rest ih =>
+    obtain ⟨k, v⟩ := b
+    unfold checkModelBlocks
+    cases h : checkModelBlock t v with
+    | error e => simp [h]
+    | ok u => cases u; simp [h, ih]
+
+/-- **what the merge stage checks, as a specification**: the file is a map with a `model` block; every model block
+(`model`, then the additional models) names importable classes and merges into its config class; every top-level key passes
+its own check -/
+theorem mergeCheck_ok_iff (t : Tables) (file : Val) :
+    mergeCheck t file = .ok () ↔
+      ∃ kvs blocks, file = .map kvs ∧ modelBlocks t file = .ok blocks ∧
+        (∀ b ∈ blocks, checkModelBlock t b.2 = .ok ()) ∧ (∀ kv ∈ kvs, checkTopKey t file kv.1 kv.2 = .ok ()) := by
+  cases file with
+  | map kvs =>
+    unfold mergeCheck
+    cases hb : modelBlocks t (.map kvs) with
+    | error e => simp
+    | ok blocks =>
+      simp only
+      cases hm : checkModelBlocks t blocks with
+      | error e =>
+        have : ¬ ∀ b ∈ blocks, checkModelBlock t b.2 = .ok () := fun h => by
+          rw [(checkModelBlocks_ok_iff t blocks).mpr h] at hm; cases hm
+        constructor
+        · intro h; cases h
+        · rintro ⟨kvs', blocks', hk, hb', hall, _⟩
+          cases hk; cases hb'; exact absurd hall this
+      | ok u =>
+        cases u
+        have hall := (checkModelBlocks_ok_iff t blocks).mp hm
+        constructor
+        · intro h; exact ⟨kvs, blocks, rfl, rfl, hall, (checkTopKeys_ok_iff t _ kvs).mp h⟩
+        · rintro ⟨kvs', blocks', hk, _, _, hkeys⟩
+          cases hk; exact (checkTopKeys_ok_iff t _ kvs).mpr hkeys
+  | _ => simp [mergeCheck]
+
+/-- **what the merge does *not* check**: a `List[Any]`-typed field (`training.datasets`, `validation.datasets`,
+`loss.losses`) accepts every list whatsoever — containers are appended unchecked and `Any` takes every scalar -/
+theorem list_any_unchecked (xs : List Val) : validate (.list .any) (.list xs) = .ok () := by
+  have h : ∀ ys : List Val, validateElems .any ys = .ok () := by
+    intro ys
+    induction ys with
+    | nil => simp [validateElems]
+    | cons y rest ih =>
+      cases y <;> simp [validateElems, validate, Ty.isOptional, Ty.core, validateScalar, ih]
+  simp [validate, Ty.core, h]
+
+
+/-- **what *is* checked for an untyped training / validation block**: it has a `transforms` map with a `masking` entry that
+`build_masking_function` can be called with, and every flattened transform key is a builder parameter — nothing else
+(no field of the block itself, no type of any value) -/
+theorem rawBlockCheck_ok_iff (t : Tables) (b : Val) :
+    rawBlockCheck t b = .ok () ↔
+      ∃ kvs m, b.get? t.kTransforms = some (.map kvs) ∧ lookup t.kMasking kvs = some m ∧
+        maskingCheck t m = .ok () ∧ transformsCheck t (.map kvs) = .ok () := by
+  unfold rawBlockCheck
+  cases h : b.get? t.kTransforms with
+  | none => simp
+  | some tr =>
+    cases tr with
+    | map kvs =>
+      simp only
+      cases hm : lookup t.kMasking kvs with
+      | none => simp [hm]
+      | some m =>
+        simp only
+        cases hc : maskingCheck t m with
+        | error e =>
+          simp only [reduceCtorEq, false_iff]
+          rintro ⟨kvs', m', hk, hm', hc', _⟩
+          cases hk; rw [hm] at hm'; cases hm'; rw [hc] at hc'; cases hc'
+        | ok u =>
+          cases u
+          constructor
+          · intro ht; exact ⟨kvs, m, rfl, hm, hc, ht⟩
+          · rintro ⟨kvs', m', hk, _, _, ht⟩
+            cases hk; exact ht
+    | _ => simp
 
 end DirectVerif.Config
